@@ -324,6 +324,10 @@ pub trait Writer {
         length: u64,
         format: Format,
     ) -> Result<()> {
+        if format == Format::Dwarf32 && (0xffff_fff0..=0xffff_ffff).contains(&length) {
+            // Values from 0xffff_fff0 are reserved, and would not be read back as a length.
+            return Err(Error::InitialLengthOverflow);
+        }
         self.write_udata_at(offset.0, length, format.word_size())
     }
 }
